@@ -92,6 +92,14 @@ def families(tier):
         hs = [dict(bus='A', pat='P', name='hp', prog=hp), dict(bus='A', pat='C', name='hc', prog=[('disp', 'A', 'G', 'ff', {'parent': 'P'})]),
               dict(bus='A', pat='G', name='hg', prog=[('ret', 1)])]
         add('c09.redispatch', shape, {'A': {}}, hs, [('disp', 'A', 'P', 'await'), ('disp', 'A', 'X', 'ff')])
+    # a dispatch made inside a handler is REJECTED (backlog limit), the caller keeps the object and dispatches it again later - from ordinary code (no parent,
+    # nobody's child) or from a handler of an unrelated event (that handler's child, that event as parent)
+    for nburst, again, hist in itertools.product((53, 60), ('main', 'other_handler'), (50, 5)):
+        hs = [dict(bus='A', pat='P', name='hp', prog=[('burst', 'A', 'Y', nburst), ('pause',)]), dict(bus='A', pat='Y', name='hy', prog=[('ret', 0)], kind='sync'),
+              dict(bus='A', pat='Q', name='hq', prog=[('reoffer', 'A'), ('pause',)])]
+        main = [('disp', 'A', 'P', 'ff'), ('pause',), ('idle', 'A')] + ([('reoffer', 'A')] if again == 'main' else [('disp', 'A', 'Q', 'ff'), ('pause',)]) + [('idle', 'A')]
+        out.append(dict(prop='C09', family='c09.rejected_then_dispatched_again', id=f'c09.rej/n{nburst}-{again}-h{hist}', cfg=dict(cfg, max_points=300), params={},
+                        scn=dict(buses={'A': dict(hist=hist)}, order=['A'], handlers=hs, main=main, actors=[], forwards=[], settle=3.0, no_watch=True)))
     # the grammar-generated corpus shared by the bus properties (vsched/gen.py), judged by this property's oracle
     from .. import gen
     out += gen.family('C09', tier, timeouts=(None, 0.5, 'none') if tier == 'thorough' else (None, 'none'))
@@ -120,7 +128,8 @@ def oracle(spec, res):
             for c in r['children']:
                 member.setdefault(c, []).append((pe, r['bus'], r['h']))
     for x, fe in fin.items():
-        fd = tr.first_disp.get(x)
+        # lineage is fixed by the dispatch that was ACCEPTED first (a rejected dispatch leaves no trace - C14 - so it cannot have set a parent)
+        fd = next((d for d in tr.dispatches if d[4] == x and d[6] == 'prog' and d[5] == 'ok'), None)
         if fd is None:
             continue
         who = fd[2]
